@@ -44,30 +44,89 @@ macro_rules! value_read {
     };
 }
 
-// binary VR classes (readers: tag, ob, us, ss, fl, od, ul, uv, sl, sv) × odd lengths
+// binary VR readers (tag is excluded, see below) x EVERY residue of the declared length modulo the sample size, with zero and one whole sample before it
 value_read!(c07_val_us_1, VR::US, 1, 8, 6, read_value);
 value_read!(c07_val_us_3, VR::US, 3, 8, 6, read_value);
 value_read!(c07_val_us_5, VR::US, 5, 8, 6, read_value);
+value_read!(c07_val_ow_1, VR::OW, 1, 8, 6, read_value);
 value_read!(c07_val_ow_3, VR::OW, 3, 8, 6, read_value);
+value_read!(c07_val_ow_5, VR::OW, 5, 8, 6, read_value);
+value_read!(c07_val_ss_1, VR::SS, 1, 8, 6, read_value);
 value_read!(c07_val_ss_3, VR::SS, 3, 8, 6, read_value);
+value_read!(c07_val_ss_5, VR::SS, 5, 8, 6, read_value);
+value_read!(c07_val_ul_1, VR::UL, 1, 8, 6, read_value);
+value_read!(c07_val_ul_2, VR::UL, 2, 8, 6, read_value);
+value_read!(c07_val_ul_3, VR::UL, 3, 8, 6, read_value);
 value_read!(c07_val_ul_5, VR::UL, 5, 8, 6, read_value);
+value_read!(c07_val_ul_6, VR::UL, 6, 8, 6, read_value);
+value_read!(c07_val_ul_7, VR::UL, 7, 8, 6, read_value);
+value_read!(c07_val_ol_3, VR::OL, 3, 8, 6, read_value);
+value_read!(c07_val_ol_5, VR::OL, 5, 8, 6, read_value);
 value_read!(c07_val_ol_7, VR::OL, 7, 8, 6, read_value);
+value_read!(c07_val_sl_1, VR::SL, 1, 8, 6, read_value);
+value_read!(c07_val_sl_2, VR::SL, 2, 8, 6, read_value);
+value_read!(c07_val_sl_3, VR::SL, 3, 8, 6, read_value);
 value_read!(c07_val_sl_5, VR::SL, 5, 8, 6, read_value);
+value_read!(c07_val_sl_6, VR::SL, 6, 8, 6, read_value);
+value_read!(c07_val_sl_7, VR::SL, 7, 8, 6, read_value);
+value_read!(c07_val_fl_1, VR::FL, 1, 8, 6, read_value);
+value_read!(c07_val_fl_2, VR::FL, 2, 8, 6, read_value);
+value_read!(c07_val_fl_3, VR::FL, 3, 8, 6, read_value);
 value_read!(c07_val_fl_5, VR::FL, 5, 8, 6, read_value);
+value_read!(c07_val_fl_6, VR::FL, 6, 8, 6, read_value);
+value_read!(c07_val_fl_7, VR::FL, 7, 8, 6, read_value);
 value_read!(c07_val_of_3, VR::OF, 3, 8, 6, read_value);
-value_read!(c07_val_fd_9, VR::FD, 9, 12, 6, read_value);
-value_read!(c07_val_od_3, VR::OD, 3, 12, 6, read_value);
-value_read!(c07_val_uv_9, VR::UV, 9, 12, 6, read_value);
-value_read!(c07_val_ov_5, VR::OV, 5, 12, 6, read_value);
-value_read!(c07_val_sv_9, VR::SV, 9, 12, 6, read_value);
+value_read!(c07_val_of_5, VR::OF, 5, 8, 6, read_value);
+value_read!(c07_val_of_7, VR::OF, 7, 8, 6, read_value);
+value_read!(c07_val_fd_1, VR::FD, 1, 16, 6, read_value);
+value_read!(c07_val_fd_3, VR::FD, 3, 16, 6, read_value);
+value_read!(c07_val_fd_5, VR::FD, 5, 16, 6, read_value);
+value_read!(c07_val_fd_7, VR::FD, 7, 16, 6, read_value);
+value_read!(c07_val_fd_9, VR::FD, 9, 16, 6, read_value);
+value_read!(c07_val_fd_11, VR::FD, 11, 16, 6, read_value);
+value_read!(c07_val_fd_13, VR::FD, 13, 16, 6, read_value);
+value_read!(c07_val_fd_15, VR::FD, 15, 16, 6, read_value);
+value_read!(c07_val_od_3, VR::OD, 3, 16, 6, read_value);
+value_read!(c07_val_od_5, VR::OD, 5, 16, 6, read_value);
+value_read!(c07_val_od_13, VR::OD, 13, 16, 6, read_value);
+value_read!(c07_val_od_14, VR::OD, 14, 16, 6, read_value);
+value_read!(c07_val_uv_1, VR::UV, 1, 16, 6, read_value);
+value_read!(c07_val_uv_3, VR::UV, 3, 16, 6, read_value);
+value_read!(c07_val_uv_5, VR::UV, 5, 16, 6, read_value);
+value_read!(c07_val_uv_7, VR::UV, 7, 16, 6, read_value);
+value_read!(c07_val_uv_9, VR::UV, 9, 16, 6, read_value);
+value_read!(c07_val_uv_11, VR::UV, 11, 16, 6, read_value);
+value_read!(c07_val_uv_13, VR::UV, 13, 16, 6, read_value);
+value_read!(c07_val_uv_15, VR::UV, 15, 16, 6, read_value);
+value_read!(c07_val_ov_3, VR::OV, 3, 16, 6, read_value);
+value_read!(c07_val_ov_5, VR::OV, 5, 16, 6, read_value);
+value_read!(c07_val_ov_13, VR::OV, 13, 16, 6, read_value);
+value_read!(c07_val_ov_14, VR::OV, 14, 16, 6, read_value);
+value_read!(c07_val_sv_1, VR::SV, 1, 16, 6, read_value);
+value_read!(c07_val_sv_2, VR::SV, 2, 16, 6, read_value);
+value_read!(c07_val_sv_3, VR::SV, 3, 16, 6, read_value);
+value_read!(c07_val_sv_4, VR::SV, 4, 16, 6, read_value);
+value_read!(c07_val_sv_5, VR::SV, 5, 16, 6, read_value);
+value_read!(c07_val_sv_6, VR::SV, 6, 16, 6, read_value);
+value_read!(c07_val_sv_7, VR::SV, 7, 16, 6, read_value);
+value_read!(c07_val_sv_9, VR::SV, 9, 16, 6, read_value);
+value_read!(c07_val_sv_10, VR::SV, 10, 16, 6, read_value);
+value_read!(c07_val_sv_11, VR::SV, 11, 16, 6, read_value);
+value_read!(c07_val_sv_12, VR::SV, 12, 16, 6, read_value);
+value_read!(c07_val_sv_13, VR::SV, 13, 16, 6, read_value);
+value_read!(c07_val_sv_14, VR::SV, 14, 16, 6, read_value);
+value_read!(c07_val_sv_15, VR::SV, 15, 16, 6, read_value);
 value_read!(c07_val_ob_3, VR::OB, 3, 8, 6, read_value);
 value_read!(c07_val_un_5, VR::UN, 5, 8, 6, read_value);
+value_read!(c07_val_ob_1, VR::OB, 1, 8, 6, read_value);
 // preserved / raw strategies
 value_read!(c07_valp_us_3, VR::US, 3, 8, 6, read_value_preserved);
 value_read!(c07_valp_ul_5, VR::UL, 5, 8, 6, read_value_preserved);
+value_read!(c07_valp_sv_13, VR::SV, 13, 16, 6, read_value_preserved);
+value_read!(c07_valp_fd_7, VR::FD, 7, 16, 6, read_value_preserved);
 value_read!(c07_valb_us_3, VR::US, 3, 8, 6, read_value_bytes);
 value_read!(c07_valb_fd_5, VR::FD, 5, 8, 6, read_value_bytes);
-
+value_read!(c07_valb_sv_13, VR::SV, 13, 16, 6, read_value_bytes);
 // Text VR classes: measured on Engine K with a Latin-1 model of the default codec, every reader that goes through
 // Vec::resize_with + split + collect into SmallVec<[String; 2]> (strs, cs, da, dt, tm, ds, is) exceeds 8 GB / 6-13 min, also
 // when the value bytes are restricted to padding; the single-string reader (ST/UT) finishes in 150 s but only with library
